@@ -231,6 +231,71 @@ def strip_placeholder_keys(d):
     return d
 
 
+def interleaved_reassembly(ctx, P, rng):
+    """Several binary packets are being reassembled at the same time (one per
+    connection in a server): the attachments of each are handed back in their
+    own order but interleaved with those of the others, and one of them may be
+    abandoned half-way (its connection was lost).  Every packet still
+    completes on its own last attachment with its own payload."""
+    from vlib import refcodec as RR
+    packs = []
+    for _ in range(rng.randint(2, 4)):
+        ptype = rng.choice([2, 3])
+        data = strip_placeholder_keys(gen_data_for(rng, ptype, False))
+        if not RR.has_bytes(data):
+            data = (data if isinstance(data, list) else ['ev']) + \
+                [gen.gen_bytes(rng), {'k': [gen.gen_bytes(rng)]}]
+        nsp = gen.gen_namespace(rng, allow_none=True, simple=True)
+        pid = rng.choice([None, 0, 7, 123])
+        text, atts = RR.encode(ptype, nsp, pid, data)
+        packs.append({'q': P.Packet(encoded_packet=text), 'atts': list(atts),
+                      'given': 0, 'want': expected_view(ptype, nsp, pid,
+                                                        data),
+                      'frame': text[:80], 'done': False})
+    abandoned = rng.randrange(len(packs)) if rng.random() < 0.4 else None
+    w = {'part': 'interleaved_reassembly',
+         'frames': [p['frame'] for p in packs], 'abandoned': abandoned}
+    live = list(range(len(packs)))
+    while live:
+        i = rng.choice(live)
+        pk = packs[i]
+        if i == abandoned and pk['given'] >= max(0, len(pk['atts']) - 1):
+            live.remove(i)          # never completed: the connection is gone
+            continue
+        if not pk['atts'][pk['given']:]:
+            live.remove(i)
+            continue
+        a = pk['atts'][pk['given']]
+        pk['given'] += 1
+        try:
+            done = pk['q'].add_attachment(a)
+        except Exception as e:
+            ctx.violation(None, 'interleaved reassembly: add_attachment '
+                          'raised %r' % e, dict(w, packet=i))
+            return
+        ctx.count('interleaved_attachments')
+        last = pk['given'] == len(pk['atts'])
+        if done is not last:
+            ctx.violation(None, 'interleaved reassembly: packet %d reported '
+                          'completion=%r on attachment %d of %d' % (
+                              i, done, pk['given'], len(pk['atts'])),
+                          dict(w, packet=i))
+            return
+        if last:
+            q = pk['q']
+            got = {'type': q.packet_type,
+                   'nsp': '/' if q.namespace is None else q.namespace,
+                   'id': q.id, 'data': q.data}
+            if not view_eq(got, pk['want']):
+                ctx.violation(None, 'interleaved reassembly: packet %d was '
+                              'reconstructed with a different payload' % i,
+                              dict(w, packet=i, got=got, want=pk['want']))
+                return
+            live.remove(i)
+    ctx.count('interleaved_reassemblies')
+    ctx.case(('interleaved', len(packs), abandoned is not None), None)
+
+
 def run(ctx):
     from socketio import packet as P
     rng = ctx.rng
@@ -253,6 +318,7 @@ def run(ctx):
     ctx.require('frames_compared_with_reference', 100)
     ctx.require('reference_frames_decoded', 100)
     ctx.require('add_attachment_calls', 10)
+    ctx.require('interleaved_reassemblies', 10)
     ctx.require('bytes_rejected_for_non_event', 1)
     # (a) exhaustive header grid (shard 0 only; thorough shards>0 go random)
     if ctx.shard == 0:
@@ -279,4 +345,6 @@ def run(ctx):
         data = strip_placeholder_keys(gen_data_for(rng, ptype, True))
         check_packet(ctx, P, ptype, nsp, pid, data, rng, 'random')
         n += 1
+        if n % 20 == 0:
+            interleaved_reassembly(ctx, P, rng)
     ctx.extra['random_packets'] = n
